@@ -9,9 +9,17 @@ from .model import SPELLINGS
 
 
 def make_content(cseed, size):
-    """Bytes fully determined by (cseed, size) so replay files can carry specs, not blobs."""
+    """Bytes fully determined by (cseed, size) so replay files can carry specs, not blobs. The seed also selects
+    the KIND of bytes: arbitrary binary (most), ASCII text with CR/LF line ends (cseed % 7 == 3), multi-byte
+    UTF-8 text (cseed % 7 == 5)."""
     if size == 0:
         return b""
+    if cseed % 7 == 3:
+        unit = ("line %d of a text object\r\nsecond line\n\rodd\n" % cseed).encode()
+        return (unit * (size // len(unit) + 1))[:size]
+    if cseed % 7 == 5:
+        unit = ("\u00e9\u00df\u4e2d\U0001F600 text %d\n" % cseed).encode("utf-8")
+        return (unit * (size // len(unit) + 1))[:size]
     base = hashlib.shake_128(b"hsverif-content-%d" % cseed).digest(min(size, 4096))
     if size <= len(base):
         return base[:size]
@@ -23,7 +31,7 @@ def contents_from_spec(spec):
     return {name: make_content(s["cseed"], s["size"]) for name, s in spec.items()}
 
 
-def boundary_sizes(rng, b=(4096, 8192)):
+def boundary_sizes(rng, b=(4096, 8192, 65536)):
     sizes = {0, 1}
     for bb in b:
         sizes |= {bb - 1, bb, bb + 1, 2 * bb - 1, 2 * bb, 2 * bb + 1, 3 * bb + 7}
@@ -174,7 +182,8 @@ def chunk(seq, n):
 
 _META = ["/", "..", "../", "/etc/passwd", ".", "-", "--", "*", "?", "[", "]", "{", "}", "$", ";", "&",
          "|", "\\", "`", "'", '"', "~", "%", "#", "=", ":", "@", "!", "(", ")", "<", ">", "\x00",
-         "\x01", "\x7f", "\x1b", "\u0301", "\u200d", "\U0001F600", "\U00010348", "é", "ß", "İ", "ǆ", "ﬁ"]
+         "\x01", "\x7f", "\x1b", "\u0301", "\u200d", "\U0001F600", "\U00010348", "é", "ß", "İ", "ǆ", "ﬁ",
+         "e\u0301", "%2F", "%2f", "%00", "%20", "\u212b", "\u00c5", "A\u030a", "..%2F", "+"]
 
 
 def adversarial_id(rng, maxlen=40):
@@ -207,5 +216,14 @@ def relatives(rng, base):
     out.append(base.swapcase())
     out.append(base + "/")
     out.append(base + ".")
+    out.append("." + base)
+    import unicodedata
+    import urllib.parse
+    for form in ("NFC", "NFD", "NFKC"):
+        out.append(unicodedata.normalize(form, base))
+    out.append(urllib.parse.quote(base, safe=""))
+    out.append(urllib.parse.unquote(base))
+    out.append(base.lower())
+    out.append(base.upper())
     out = [x for x in out if x and x != base and not any(ch.isspace() for ch in x)]
     return out
